@@ -134,12 +134,9 @@ Lemma to_upper_to_lower c : is_upper c = true -> ascii_eqb (to_upper (to_lower c
 Proof. revert c; char_fact. Qed.
 
 Lemma ascii_eqb_eq a b : ascii_eqb a b = true -> a = b.
-Proof.
-  unfold ascii_eqb, code. intros H. apply N.eqb_eq in H.
-  rewrite <- (ascii_N_embedding a), <- (ascii_N_embedding b). congruence.
-Qed.
+Proof. unfold ascii_eqb. intros H. apply Ascii.eqb_eq, H. Qed.
 Lemma ascii_eqb_refl a : ascii_eqb a a = true.
-Proof. unfold ascii_eqb. apply N.eqb_refl. Qed.
+Proof. unfold ascii_eqb. apply Ascii.eqb_refl. Qed.
 
 Lemma to_lower_to_upper_eq c : is_lower c = true -> to_lower (to_upper c) = c.
 Proof. intros H. apply ascii_eqb_eq, to_lower_to_upper, H. Qed.
